@@ -30,6 +30,13 @@ impl TranspositionTable {
         }
     }
 
+    /// Verification hook: every entry currently held (order unspecified)
+    #[cfg(flounder_verif)]
+    #[allow(dead_code)]
+    pub fn verif_entries(&self) -> Vec<Entry> {
+        self.table.values().copied().collect()
+    }
+
     pub fn retrieve(&self, key: u64) -> Option<&Entry> {
         let entry = self.table.get(&key);
         if entry.is_some() && entry.unwrap().hash_key == key {
